@@ -223,6 +223,8 @@ class RRTRun:
         self.steps_done = 0
         self.accepted_units = []
         self.at_insert = {}
+        self.node_epoch = {}
+        self.epoch = 0
         self.node_list = []
         self.box_list = []
         self.consumed = None
@@ -261,6 +263,21 @@ class RRTRun:
         self._last_units_start = len(self.rnd.consumed)
 
     # ---- recording call-backs --------------------------------------------------
+    def clear_cut_collision(self, a6, b6):
+        """Built-in pipeline only: does the segment pass through the INTERIOR (shrunk by 1e-6) of a current box?
+        Independent slab test; a verdict 'free' from the planner's own predicate on such an edge is wrong whatever
+        convention it uses on faces and edges (60 000 random queries: no disagreement on the unchanged tree)."""
+        if self.cfg["mode"] != "builtin":
+            return False
+        eps = 1e-6
+        for o in self.planner.obstructions:
+            L, R = pos6(o[0])[:3], pos6(o[1])[:3]
+            lo = [min(L[i], R[i]) + eps for i in range(3)]
+            hi = [max(L[i], R[i]) - eps for i in range(3)]
+            if all(hi[i] > lo[i] for i in range(3)) and seg_box(a6, b6, lo, hi):
+                return True
+        return False
+
     def _rec_gen(self, node):
         p = pos6(node.getPosition())
         self.log.add("gen", p)
@@ -357,6 +374,14 @@ class RRTRun:
             self.goal = goal
             pl.iterations = n_it
             if ph:
+                rep = cfg["second"].get("replace_box")
+                if rep and cfg["mode"] == "builtin" and pl.obstructions:
+                    # a moved obstacle: same list object, same length
+                    pl.obstructions.pop()
+                    pl.addObstruction(list(rep[0]), list(rep[1]))
+                    self.box_list = [(pos6(o[0])[:3], pos6(o[1])[:3]) for o in pl.obstructions]
+                    self.epoch += 1
+                    self.probes["obstruction_replaced_between_calls"] += 1
                 self.rnd.budget += 200 * n_it + 600
                 pp.random = self.rnd
                 self.probes["second_call_on_same_planner"] += 1
@@ -401,9 +426,12 @@ class RRTRun:
         if not (math.isfinite(nc) and math.isfinite(pc)) or abs(nc - (pc + d)) > 1e-9 * max(1.0, abs(nc)):
             raise Violation("T3", "at insertion: cost %r != parent cost %r + distance %r" % (nc, pc, d),
                             {"when": "insertion"})
-        if self.pure_coll(p, pp6):
-            raise Violation("T4", "at insertion: edge %r -> %r collides under the supplied detector" % (p, pp6),
-                            {"when": "insertion"})
+        self.node_epoch[p] = self.epoch
+        if self.pure_coll(p, pp6) or self.clear_cut_collision(p, pp6):
+            raise Violation("T4", "at insertion: edge %r -> %r %s" % (
+                p, pp6, "collides under the supplied detector" if self.pure_coll(p, pp6) else
+                "passes through the interior of a current obstruction (the planner's own predicate says free)"),
+                {"when": "insertion"})
         seen = 0
         x = node
         while x.getParent() is not None:
@@ -460,9 +488,10 @@ class RRTRun:
             d = self.pure_dist(p, q)
             if abs(cost[p] - (cost[q] + d)) > REL * max(1.0, abs(cost[p])):
                 raise Violation("T3", "cost(%r)=%r but parent cost %r + distance %r = %r" % (p, cost[p], cost[q], d, cost[q] + d), {})
-            # T4 edges
-            if self.pure_coll(p, q):
-                raise Violation("T4", "edge %r -> %r collides under the supplied detector" % (p, q), {})
+            # T4 edges (links made before the obstruction set was last changed are not re-judged against the new set)
+            if self.node_epoch.get(p, self.epoch) == self.epoch and (self.pure_coll(p, q) or self.clear_cut_collision(p, q)):
+                raise Violation("T4", "edge %r -> %r collides under the %s" % (
+                    p, q, "supplied detector" if self.pure_coll(p, q) else "current obstruction set (clear-cut interior crossing)"), {})
         # T2 reachability without cycles
         for p in pos:
             x = p
@@ -782,6 +811,10 @@ def gen_trace(seed):
         # the same planner asked again: another goal, usually a much smaller budget (coarse run, then a short refinement)
         cfg["second"] = {"iterations": pick_weighted(r, [(1, 1.0), (2, 2.0), (3, 2.0), (r.randint(4, 12), 2.0), (r.randint(13, 60), 1.0)]),
                          "goal": [round(r.uniform(-B, B), 3) for _ in range(3)] + [round(r.uniform(-rot, rot), 3) if rot else 0.0 for _ in range(3)]}
+    if cfg.get("second") and mode == "builtin" and cfg.get("boxes") and r.random() < 0.5:
+        nb = _rand_box(r, B, cfg["origin"], B / 3)
+        if nb:
+            cfg["second"]["replace_box"] = nb
     cfg["budget"] = 200 * iters + 600
     return {"property": PROP, "config": cfg, "draw_seed": seed}
 
@@ -814,7 +847,7 @@ ASSUMPTIONS = [
 EXPECTED_PROBES = ["rejected_for_min", "rejected_for_max", "rejected_for_collision", "rejected_exact_duplicate",
                    "tie_in_first_nearest", "tie_at_kth_neighbour", "parent_not_nearest", "cheaper_candidate_collides",
                    "k_exceeds_tree_size", "terrain_generated", "iterations_1", "iterations_2", "path_goal_nearest_root",
-                   "path_depth_ge4", "path_depth_ge14", "path_depth_ge30", "second_call_on_same_planner", "custom_callbacks", "builtin_pipeline", "arc_distance_mode"]
+                   "path_depth_ge4", "path_depth_ge14", "path_depth_ge30", "second_call_on_same_planner", "obstruction_replaced_between_calls", "custom_callbacks", "builtin_pipeline", "arc_distance_mode"]
 
 
 def warmup():
